@@ -31,6 +31,8 @@ class Contract:
     pure_result: bool = False                        # result is a deterministic function of arguments (no heap)
     ensures_when: dict = field(default_factory=dict)  # 'then' / 'else' -> clauses, for returns={'when': cond, 'then': t, 'else': t}
     entry_invariants: list = field(default_factory=list)  # object invariants assumed at entry when the body is verified (not at call sites)
+    arg_shape_when: dict = field(default_factory=dict)   # {'then': {'value': ['list', 'nd']}, 'else': {...}}: the kind of argument the alternative of `returns.when` takes (a requires clause on the argument's dynamic type)
+    requires_when: dict = field(default_factory=dict)    # requires clauses of one alternative of `returns.when` (asserted after the argument-shape check)
     hints: list = field(default_factory=list)        # proof hints (sound by construction): 'eager-inst'
 
     def labelled(self, which):
